@@ -505,6 +505,126 @@ fn run_len(len: usize, ctx: &mut Ctx, only: Option<String>) {
     }
 }
 
+// ---- the window-slice drivers on the typed Polars columns (String, Int64, Float32, Boolean) ----
+mod typed {
+    use super::*;
+    use polars::prelude::{BooleanChunked, Float32Chunked, Int64Chunked, NewChunkedArray, StringChunked};
+
+    macro_rules! build {
+        ($CA:ty, $vals:expr, $chunks:expr) => {{
+            let vals = $vals;
+            let mut pos = 0;
+            let mut ca: Option<$CA> = None;
+            for &c in $chunks {
+                let part = <$CA>::from_iter_options("".into(), vals[pos..pos + c].iter().cloned());
+                pos += c;
+                ca = Some(match ca {
+                    None => part,
+                    Some(mut acc) => {
+                        acc.append(&part).unwrap();
+                        acc
+                    }
+                });
+            }
+            ca.unwrap_or_else(|| <$CA>::from_iter_options("".into(), vals[0..0].iter().cloned()))
+        }};
+    }
+
+    /// the windows the slice drivers hand out on `v` (decoded), one list per driver form
+    fn windows<V, T>(v: &V, w: usize, dec: fn(&T) -> Cell) -> Vec<(&'static str, Outcome<Vec<Vec<Cell>>>)>
+    where
+        V: Vec1View<T> + SliceRead<T>,
+        T: Clone,
+    {
+        let rd = |s: &V::SliceOutput<'_>| -> Vec<Cell> { V::read_slice(s).iter().map(dec).collect() };
+        vec![
+            ("rolling_custom", catch(|| {
+                let log = RefCell::new(vec![]);
+                let out: Vec<i32> = v.rolling_custom::<Vec<i32>, i32, _>(w, |s: V::SliceOutput<'_>| { log.borrow_mut().push(rd(&s)); 0 }, None).expect("no container");
+                assert_eq!(out.len(), v.len());
+                log.into_inner()
+            })),
+            ("rolling_custom_iter", catch(|| {
+                let log = RefCell::new(vec![]);
+                let n = Iterator::count(v.rolling_custom_iter(w, |s: V::SliceOutput<'_>| { log.borrow_mut().push(rd(&s)); 0i32 }));
+                assert_eq!(n, v.len());
+                log.into_inner()
+            })),
+            ("rolling_custom_to", catch(|| {
+                let log = RefCell::new(vec![]);
+                let mut buf = <Vec<i32> as Vec1<i32>>::uninit(v.len());
+                v.rolling_custom_to::<Vec<i32>, i32, _>(w, |s: V::SliceOutput<'_>| { log.borrow_mut().push(rd(&s)); 0 }, <Vec<i32> as Vec1<i32>>::uninit_ref_mut(&mut buf));
+                let _ = unsafe { buf.assume_init() };
+                log.into_inner()
+            })),
+        ]
+    }
+
+    pub fn check_word(word: &[u8], ctx: &mut Ctx) {
+        let fam = "typed-column-slices";
+        // symbols: 0 = null, 1.. = values
+        let x: Vec<X> = word.iter().map(|s| if *s == 0 { None } else { Some(*s as f64) }).collect();
+        let len = x.len();
+        ctx.fam(fam).states += 1;
+        ctx.nontrivial(fam, hash_bytes(word));
+        let want_cells: Vec<Cell> = x.iter().map(|v| Cell::of(*v)).collect();
+        for chunks in mc_adapt::backends::chunkings(len) {
+            for w in 1..=len + 2 {
+                let expect: Vec<Vec<Cell>> = (0..len).map(|i| want_cells[(i + 1).saturating_sub(w)..=i].to_vec()).collect();
+                let mut runs: Vec<(&str, &str, Outcome<Vec<Vec<Cell>>>)> = vec![];
+                {
+                    let vals: Vec<Option<String>> = x.iter().map(|v| v.map(|a| format!("{a}"))).collect();
+                    let ca: StringChunked = build!(StringChunked, &vals, &chunks);
+                    for (d, o) in windows::<&StringChunked, Option<&str>>(&&ca, w, |t| t.map_or(Cell::Null, |s| Cell::f(s.parse::<f64>().unwrap()))) {
+                        runs.push(("&StringChunked", d, o));
+                    }
+                }
+                {
+                    let vals: Vec<Option<i64>> = x.iter().map(|v| v.map(|a| a as i64)).collect();
+                    let ca: Int64Chunked = build!(Int64Chunked, &vals, &chunks);
+                    for (d, o) in windows::<&Int64Chunked, Option<i64>>(&&ca, w, |t| t.map_or(Cell::Null, |s| Cell::f(s as f64))) {
+                        runs.push(("&Int64Chunked", d, o));
+                    }
+                }
+                {
+                    let vals: Vec<Option<f32>> = x.iter().map(|v| v.map(|a| a as f32)).collect();
+                    let ca: Float32Chunked = build!(Float32Chunked, &vals, &chunks);
+                    for (d, o) in windows::<&Float32Chunked, Option<f32>>(&&ca, w, |t| t.map_or(Cell::Null, |s| Cell::f(s as f64))) {
+                        runs.push(("&Float32Chunked", d, o));
+                    }
+                }
+                if Iterator::all(&mut x.iter().flatten(), |a| *a <= 1.0) {
+                    let vals: Vec<Option<bool>> = x.iter().map(|v| v.map(|a| a == 1.0)).collect();
+                    let ca: BooleanChunked = build!(BooleanChunked, &vals, &chunks);
+                    for (d, o) in windows::<&BooleanChunked, Option<bool>>(&&ca, w, |t| t.map_or(Cell::Null, |s| Cell::f(s as i64 as f64))) {
+                        runs.push(("&BooleanChunked", d, o));
+                    }
+                }
+                for (col, driver, got) in runs {
+                    ctx.eval(fam, hash_bytes(format!("{got:?}").as_bytes()));
+                    ctx.transitions += 1;
+                    let ok = match &got {
+                        Outcome::Ok(ws) => ws.len() == expect.len() && Iterator::all(&mut ws.iter().zip(&expect), |(a, b)| cells_eq(a, b, exact_eq)),
+                        _ => false,
+                    };
+                    if ok {
+                        ctx.traces += 1;
+                    } else {
+                        ctx.violation(Violation {
+                            entry: format!("{driver} on {col}"),
+                            finding: None,
+                            size: len * 100 + w,
+                            case: json!({"family": fam, "word": word, "series": json_word(&x), "column": col, "chunks": chunks, "driver": driver, "w": w}),
+                            expected: format!("one callback per position with exactly x[max(0,i-w+1)..=i]: {:?}", expect.iter().map(|c| show_cells(c)).collect::<Vec<_>>()),
+                            got: truncate(&format!("{:?}", match &got { Outcome::Ok(ws) => ws.iter().map(|c| show_cells(c)).collect::<Vec<_>>(), Outcome::Panic(m) => vec![format!("PANIC({m})")] }), 300),
+                        });
+                    }
+                }
+            }
+        }
+    }
+}
+
 fn main() {
     let run = Run::from_args("C02");
     let max_len = run.pick(7, 16);
@@ -515,14 +635,23 @@ fn main() {
         });
         let mut ctx = Ctx::new();
         let case = &stored["case"];
+        if case["family"] == "typed-column-slices" {
+            typed::check_word(&syms_from_json(&case["word"]), &mut ctx);
+            std::process::exit(finish_replay(&run, &stored, ctx));
+        }
         run_len(case["len"].as_u64().unwrap_or(0) as usize, &mut ctx, case["backend"].as_str().map(|s| s.to_string()));
         std::process::exit(finish_replay(&run, &stored, ctx));
     }
     let mut lens: Vec<usize> = (0..=max_len).collect();
     lens.extend(if run.quick() { vec![40, 270, 1030] } else { vec![24, 40, 70, 130, 270, 300, 1030, 2600, 4100] });
-    let total = par_items(&lens, run.threads, |len, ctx| run_len(*len, ctx, None));
+    let mut total = par_items(&lens, run.threads, |len, ctx| run_len(*len, ctx, None));
+    let twords = all_words_upto(3, run.pick(4, 6));
+    total.merge(par_items(&twords, run.threads, |w, ctx| {
+        ctx.states += 1;
+        typed::check_word(w, ctx)
+    }));
     let meta = Meta {
-        rule: "protocol machine (driver x input back end x output container x out-path x len x w): the stateful callback records (call#, arguments); the recorded trace must conform event by event to the explicit model: len calls, position i gets the new element(s) at i, the element/index at i-w+1 when i>=w-1, 'nothing' when i<min(w,len)-1, unconstrained when w>len and i=len-1; slice forms get exactly x[max(0,i-w+1)..=i]; out[i] = result of call i. Elements 10+i / 100+i are distinct so identity is observable. Non-trivial = distinct (driver, back end, output, path, len, w) runs. Configuration families (DESIGN 5.15, 5.16): every driver writing into caller buffers in non-canonical layouts (wrapped rings, strided / reversed views: path BufAlt); unbounded windows usize::MAX, usize::MAX-1, 2^63+1, 2^63, 2^63-1, 2^32+1 for lengths <= 3.".into(),
+        rule: "protocol machine (driver x input back end x output container x out-path x len x w): the stateful callback records (call#, arguments); the recorded trace must conform event by event to the explicit model: len calls, position i gets the new element(s) at i, the element/index at i-w+1 when i>=w-1, 'nothing' when i<min(w,len)-1, unconstrained when w>len and i=len-1; slice forms get exactly x[max(0,i-w+1)..=i]; out[i] = result of call i. Elements 10+i / 100+i are distinct so identity is observable. Non-trivial = distinct (driver, back end, output, path, len, w) runs. Configuration families (DESIGN 5.15, 5.16): every driver writing into caller buffers in non-canonical layouts (wrapped rings, strided / reversed views: path BufAlt); unbounded windows usize::MAX, usize::MAX-1, 2^63+1, 2^63, 2^63-1, 2^32+1 for lengths <= 3. Round 8 (DESIGN 5.17): typed-column-slices - rolling_custom / rolling_custom_iter / rolling_custom_to on the Polars String, Int64, Float32 and Boolean columns under every chunking, every word over {null,1,2}, every window 1..=len+2.".into(),
         bounds: json!({"len": format!("0..={max_len}, and the long lengths {:?} on a reduced back-end set with windows 1, 2, 15..17, 31..33, 127..129, 255..257, len-1..len+3", &lens[max_len + 1..]), "w": "1..=len+3", "drivers": DRIVERS.iter().map(|d| format!("{d:?}")).collect::<Vec<_>>(),
             "input_backends": "Vec, Arc<Vec>, [T;N], VecDeque x 8 head offsets, Array1, ArrayView1 steps {1,2,3,-1,-2}, ArrayViewMut1, Arc<Array1> (elements i32 and Option<f64>), OptIter<Vec<f64>>, OptIter<Array1<f64>>, Float64Chunked/&Float64Chunked under every chunking into <=3 chunks",
             "outputs": "Vec, VecDeque, Array1, Int32Chunked (returned and caller buffer)"}),
